@@ -12,6 +12,7 @@ var All = []*ev.Property{
 	C05,
 	C06,
 	C08,
+	C09,
 	C11,
 	C14,
 	C15,
